@@ -538,10 +538,72 @@ func fanOutScenario(subs, n, c int) *explore.Scenario {
 	}}
 }
 
+// FanOut over two topics with one message each in flight at the same time: each topic's subscribers get
+// their own topic's message, intact, and nothing else.
+func fanOutTwoTopicsScenario(c int) *explore.Scenario {
+	return &explore.Scenario{Name: fmt.Sprintf("fanout/two-topics/c%d", c), C: c, Opts: vs.Options{MaxSteps: 60000}, Body: func() {
+		topics := []string{"ta", "tb"}
+		script := map[string][]*message.Message{}
+		origs := map[string]*message.Message{}
+		for i, t := range topics {
+			m := alphabetMsg(1+i, "u-"+t)
+			script[t] = []*message.Message{m}
+			origs[t] = m
+		}
+		src := hx.NewScriptSub("in", script)
+		src.Gate = make(chan struct{})
+		fo, err := gochannel.NewFanOut(src, nil)
+		if err != nil {
+			vs.Fail("setup", "%v", err)
+			return
+		}
+		got := map[string][]*message.Message{}
+		for _, t := range topics {
+			t := t
+			fo.AddSubscription(t)
+			ch, err := fo.Subscribe(context.Background(), t)
+			if err != nil {
+				vs.Fail("subscribe-error", "%v", err)
+				return
+			}
+			go func() {
+				for m := range ch {
+					got[t] = append(got[t], m)
+					m.Ack()
+				}
+			}()
+		}
+		runRouterLike(fo.Run, fo.Running)
+		src.Open()
+		vs.Quiesce()
+		for _, t := range topics {
+			if len(got[t]) != 1 || !hx.SameContent(got[t][0], origs[t]) {
+				desc := ""
+				for _, m := range got[t] {
+					desc += m.UUID + " "
+				}
+				vs.Fail("relay", "fan-out over two topics: subscribers of %q received [%s], expected exactly %s intact", t, desc, origs[t].UUID)
+			}
+		}
+		for _, d := range src.Snapshot() {
+			if !d.Acked() {
+				vs.Fail("settlement", "fan-out: source message %s not acked", d.UUID)
+			}
+		}
+		vs.Note("ok")
+	}}
+}
+
 func init() {
 	add := func(tier reg.Tier, w int, mk func(t reg.Tier) *explore.Scenario) {
 		reg.AddW("C17", mk(reg.Quick).Name, tier, w, mk)
 	}
+	add(reg.Quick, 30, func(t reg.Tier) *explore.Scenario {
+		if t == reg.Thorough {
+			return fanOutTwoTopicsScenario(2)
+		}
+		return fanOutTwoTopicsScenario(1)
+	})
 	add(reg.Quick, 1, func(t reg.Tier) *explore.Scenario { return forwarderPublisherScenario() })
 	for _, ack := range []bool{false, true} {
 		ack := ack
